@@ -62,6 +62,8 @@ func checkC11(c *Ctx, r *Report) {
 	checkAztecCorners(c, r)
 	checkAztecRotation(c, r)
 	checkAztecSidePacking(c, r)
+	checkAztecIsValid(c, r)
+	checkCallbackNilIn(c, r, "aztec", 1) // the result-point callback hint is tested before it is called (also C06)
 	checkAztecCharset(c, r)
 	checkAztecDecoderState(c, r)
 	checkAztecReadCode(c, r, "M-READCODE")
@@ -1605,4 +1607,48 @@ func checkAztecSidePacking(c *Ctx, r *Report) {
 		}
 		reportFold(r, c, "T-AZPACK", key, loop.Pos(), bad)
 	}
+}
+
+// M-AZVALID: the detector's in-image test takes x against the width and y against the height
+func checkAztecIsValid(c *Ctx, r *Report) {
+	r.Rule("M-AZVALID", "Detector.isValid(x, y), the test every probe of the Aztec detector passes through (getFirstDifferent, isValidPoint), folded over a grid of points around an image that is wider than tall and one that is taller than wide: true exactly for 0 <= x < width and 0 <= y < height - a symbol is located wherever it lies in a non-square image", 1)
+	fd, p := c.funcDeclOf("aztec/detector", "Detector.isValid")
+	key := "aztec/detector.Detector.isValid"
+	if fd == nil {
+		r.AnchorLost("M-AZVALID", key, "method not found")
+		return
+	}
+	r.Analysed(key)
+	bad := ""
+	for _, dim := range [][2]int64{{7, 4}, {4, 7}, {5, 5}} {
+		W, H := dim[0], dim[1]
+		h := &rpf{callHook: func(rr *rpf, call *ast.CallExpr, callee types.Object) (*Val, bool) {
+			switch {
+			case isMethodNamed(callee, "", "BitMatrix", "GetWidth"):
+				return vint(W), true
+			case isMethodNamed(callee, "", "BitMatrix", "GetHeight"):
+				return vint(H), true
+			}
+			return nil, false
+		}, selHook: func(rr *rpf, sel *ast.SelectorExpr) (*Val, bool) {
+			if sel.Sel.Name == "image" {
+				return &Val{K: VStruct, Ptr: true, Fields: map[string]*Val{}}, true
+			}
+			return nil, false
+		}}
+		for x := int64(-1); x <= 8 && bad == ""; x++ {
+			for y := int64(-1); y <= 8 && bad == ""; y++ {
+				res, err := c.rpfCall(fd, p, []*Val{vint(x), vint(y)}, h)
+				if err != nil || len(res) != 1 || res[0].K != VBool {
+					bad = fmt.Sprintf("?isValid(%d,%d): %v", x, y, err)
+					break
+				}
+				want := x >= 0 && x < W && y >= 0 && y < H
+				if res[0].B != want {
+					bad = fmt.Sprintf("a %dx%d image (width x height): isValid(%d, %d) = %v, expected %v", W, H, x, y, res[0].B, want)
+				}
+			}
+		}
+	}
+	reportFold(r, c, "M-AZVALID", key, fd.Pos(), bad)
 }
